@@ -13,7 +13,7 @@ STACK_API = ['path:stack::PushStack::*']
 MANIP = ['DUP', 'DDUP', 'POP', 'SWAP', 'ROT', 'YANK', 'YANKDUP', 'SHOVE', 'FLUSH', 'STACKDEPTH']
 STACK_TYPES = ['BOOLEAN', 'INTEGER', 'FLOAT', 'NAME', 'CODE', 'EXEC', 'BOOLVECTOR', 'INTVECTOR', 'FLOATVECTOR']
 C05_NAMES = ['%s.%s' % (t, m) for t in STACK_TYPES for m in MANIP]
-VEC_EXTERNAL_NOTE = ('COUNT, SUM, MEAN, SORT*ASC/DESC, REMOVE, BOOLINDEX, *SCALAR and SINE use iterator adapters / closures / `usize as f32` that Verus '
+VEC_EXTERNAL_NOTE = ('COUNT, SUM, MEAN, SORT*ASC/DESC, REMOVE, BOOLINDEX and *SCALAR use iterator adapters / closures that Verus '
                      'cannot translate: their bodies are external (listed under out_of_reach); bounded Kani stand-ins are listed under bounded_stand_ins when run')
 
 PROPS = {
@@ -178,9 +178,8 @@ PROPS = {
         level='proof',
         units=['path:topology::Topology::*', 'nameglob:LIST.NEIGHBOR*'],
         explanation='decompose_index: digits below the edge length, panic-free for an edge length >= 1; euclidean_distance == sqrt of the accumulated squared differences (f32 operations uninterpreted), None on a length mismatch; '
-                    'find_neighbors: None for invalid parameters, panic-free, terminating (R7: `usize as f32` / `f32 as usize` go through wrapper functions whose bodies are the casts); LIST.NEIGHBOR* operand handling and result stack',
+                    'find_neighbors: None for invalid parameters, every returned index in 0..ntotal, strictly ascending (hence no repeats), panic-free, terminating (R7: `usize as f32` / `f32 as usize` go through wrapper functions whose bodies are the casts); LIST.NEIGHBOR* operand handling and result stack',
         not_decided=['contains-the-centre, symmetry, monotonicity in the radius, agreement with brute-force geometry: depend on powf/sqrt/ceil values (uninterpreted in Verus, over-approximated by CBMC)',
-                     'ascending order / index range of the result: the loop invariant would have to mention `neighbors`, whose element type is only inferred from a later push (rustc: type annotations needed)',
                      'bijectivity of the decomposition (mixed-radix recombination)'],
         assumptions=['float fact L3 (assume in find_neighbors, NOT checked by any installed tool): for ntotal >= 1, ndim >= 1 the edge length ceil(ntotal^(1/ndim)) is >= 1'],
     ),
@@ -191,9 +190,9 @@ PROPS = {
         label_re=r'bound\.alloc|at-most-one-item-per-id',
         explanation='the expressible part of C15: every vector a step creates is no longer than the vector operands it consumed plus the number of scalar operands plus one '
                     '(bound.alloc clauses: element-wise operations, NOT, APPEND, SET*INSERT, FROMINT, load_items) -- i.e. allocation is bounded by the state, not by operand magnitude; '
-                    'ONES / ZEROS / RAND vectors are sized by an INTEGER operand by design: one known finding each',
+                    'ONES / ZEROS / RAND / SINE vectors are sized by an INTEGER operand by design: one known finding each',
         not_decided=['peak RSS, wall-clock time and host stack depth of a step: not expressible as a contract',
                      'no CODE/EXEC item grows beyond max_points_in_program: the limit is consulted nowhere (CODE.APPEND/LIST/CONS, EXEC.S/Y, LIST.ADD ... grow items freely); not encoded as obligations',
-                     'FLOATVECTOR.SINE (external body: usize as f32) and LIST.NEIGHBOR* (external find_neighbors) allocate by an INTEGER operand too'],
+                     'LIST.NEIGHBOR* allocate by an INTEGER operand too (find_neighbors result <= ntotal elements); no bound.alloc clause is stated for them'],
     ),
 }
